@@ -297,6 +297,12 @@ def run(ctx):
         wild = [p for p in pats if p.strip() == "_" or p.strip().startswith("$")]
         named = sorted(set(alt.strip().rsplit("::", 1)[-1] for p in pats for alt in p.split("|") if "::" in alt))
         key = "ty-match|%s|%s" % (owner.rsplit("::", 2)[-2] + "::" + owner.rsplit("::", 1)[-1], ",".join(named))
+        # flat and nested vector shapes differ in the value count they imply (a positional Vec<T> takes 1.. values per occurrence, a
+        # Vec<Vec<T>> one inner vector per occurrence): the translator of gen_augment must not handle them in one arm
+        if owner.endswith("::gen_augment") and not wild:
+            mixed = [p for p in pats if re.search(r"::(Vec|OptionVec)\b(?!Vec)", p) and re.search(r"::(VecVec|OptionVecVec)\b", p)]
+            res.check(not mixed, "R15.2", "flat-and-nested-vectors-apart|gen_augment", sp_str(m["span"]), "Vec/Option<Vec> and Vec<Vec>/Option<Vec<Vec>> are translated by different arms",
+                      "gen_augment translates flat and nested vector fields in one arm (%s): a positional Vec<Vec<T>> gets the flat vector's `num_args(1..)` and all values land in one occurrence" % (mixed[0][:120] if mixed else ""))
         if wild:
             res.audited("R15.2", key + "|wildcard", sp_str(m["span"]), "match over Ty with a wildcard arm (names %s): listed, the named arms are checked by R15.1 on the corpus" % named)
         else:
